@@ -9,8 +9,8 @@ import (
 
 // T is one node of an ordered tree; a document is a Forest.
 type T struct {
-	Name string `json:"n"`
-	Kids []*T   `json:"k,omitempty"`
+	Name string
+	Kids []*T
 }
 
 type Forest []*T
